@@ -323,3 +323,370 @@ Qed.
 
 Lemma kappa_nonlocal_ge u : norm2P u <= kappaR (nonlocal_coeffsR u).
 Proof. rewrite kappa_nonlocal. pose proof (cross_nonneg u). lra. Qed.
+
+(* ------------------------------------------------------------------------------------ *)
+(* _u_from_thetavec: the eigen-decomposition formula equals the product form              *)
+(*   exp(i(a XX + b YY + c ZZ)) = sum_k u_k s_k (x) s_k                                    *)
+(* ------------------------------------------------------------------------------------ *)
+
+Ltac unfold_u :=
+  cbv [u_from_thetavecR u_from_cs fold_right ev_entry nth c15_eigvecs c15_eigvals map eigvalR fst snd
+       Qmult Qnum Qden Z.mul Pos.mul Q2R].
+Ltac trig :=
+  repeat match goal with
+  | |- context [-1 * ?x] => replace (-1 * x) with (- x) by ring
+  | |- context [1 * ?x] => replace (1 * x) with x by ring
+  end;
+  repeat (rewrite cos_plus || rewrite sin_plus || rewrite cos_neg || rewrite sin_neg).
+
+Definition u_prod (a b c : R) (j : nat) : R * R :=
+  match j with
+  | 0%nat => (cos a * cos b * cos c, sin a * sin b * sin c)
+  | 1%nat => (cos a * sin b * sin c, sin a * cos b * cos c)
+  | 2%nat => (sin a * cos b * sin c, cos a * sin b * cos c)
+  | 3%nat => (sin a * sin b * cos c, cos a * cos b * sin c)
+  | _ => (0, 0)
+  end.
+
+Lemma u_product a b c j : (j < 4)%nat -> u_from_thetavecR a b c j = u_prod a b c j.
+Proof.
+  intros Hj. destruct j as [|[|[|[|j]]]]; try lia.
+  all: unfold_u; trig; cbn [u_prod]; f_equal; field.
+Qed.
+
+Lemma kappa_kak_prod a b c :
+  kappaR (kak_coeffsR a b c) = norm2P (u_prod a b c) + 4 * cross (u_prod a b c).
+Proof.
+  unfold kak_coeffsR. rewrite kappa_nonlocal.
+  unfold norm2P, cross, abs2P, reP, imP. rewrite !u_product by lia. reflexivity.
+Qed.
+
+Lemma norm_u_prod a b c : norm2P (u_prod a b c) = 1.
+Proof.
+  unfold norm2P, abs2P; cbn [u_prod fst snd].
+  pose proof (sin2_cos2 a) as Ha. pose proof (sin2_cos2 b) as Hb. pose proof (sin2_cos2 c) as Hc.
+  unfold Rsqr in *.
+  set (ca := cos a) in *; set (sa := sin a) in *; set (cb := cos b) in *; set (sb := sin b) in *;
+  set (cc := cos c) in *; set (sc := sin c) in *.
+  match goal with |- ?l = _ =>
+    replace l with ((sa * sa + ca * ca) * (sb * sb + cb * cb) * (sc * sc + cc * cc)) by ring end.
+  rewrite Ha, Hb, Hc. ring.
+Qed.
+
+Lemma weyl_terms a b c :
+  let u := u_prod a b c in
+  (reP u 0 1 = sin (2 * b) * sin (2 * c) / 4 /\
+   reP u 0 2 = sin (2 * a) * sin (2 * c) / 4 /\
+   reP u 0 3 = sin (2 * a) * sin (2 * b) / 4 /\
+   reP u 1 2 = sin (2 * a) * sin (2 * b) / 4 /\
+   reP u 2 3 = sin (2 * b) * sin (2 * c) / 4 /\
+   reP u 3 1 = sin (2 * a) * sin (2 * c) / 4) /\
+  (imP u 0 1 = - (sin (2 * a) * (cos (b + c) * cos (b - c))) / 2 /\
+   imP u 0 2 = - (sin (2 * b) * (cos (a + c) * cos (a - c))) / 2 /\
+   imP u 0 3 = - (sin (2 * c) * (cos (a + b) * cos (a - b))) / 2 /\
+   imP u 1 2 = sin (2 * c) * (sin (a + b) * sin (a - b)) / 2 /\
+   imP u 2 3 = sin (2 * a) * (sin (b + c) * sin (b - c)) / 2 /\
+   imP u 3 1 = - (sin (2 * b) * (sin (a + c) * sin (a - c))) / 2).
+Proof.
+  cbv zeta. unfold reP, imP; cbn [u_prod fst snd].
+  rewrite !sin_2a, !cos_plus, !cos_minus, !sin_plus, !sin_minus.
+  pose proof (sin2_cos2 a) as Ha. pose proof (sin2_cos2 b) as Hb. pose proof (sin2_cos2 c) as Hc.
+  unfold Rsqr in *.
+  set (ca := cos a) in *; set (sa := sin a) in *; set (cb := cos b) in *; set (sb := sin b) in *;
+  set (cc := cos c) in *; set (sc := sin c) in *.
+  split; [|repeat split; field].
+  repeat split.
+  - match goal with |- ?l = _ => replace l with (sb * cb * sc * cc * (sa * sa + ca * ca)) by ring end.
+    rewrite Ha; field.
+  - match goal with |- ?l = _ => replace l with (sa * ca * sc * cc * (sb * sb + cb * cb)) by ring end.
+    rewrite Hb; field.
+  - match goal with |- ?l = _ => replace l with (sa * ca * sb * cb * (sc * sc + cc * cc)) by ring end.
+    rewrite Hc; field.
+  - match goal with |- ?l = _ => replace l with (sa * ca * sb * cb * (sc * sc + cc * cc)) by ring end.
+    rewrite Hc; field.
+  - match goal with |- ?l = _ => replace l with (sb * cb * sc * cc * (sa * sa + ca * ca)) by ring end.
+    rewrite Ha; field.
+  - match goal with |- ?l = _ => replace l with (sa * ca * sc * cc * (sb * sb + cb * cb)) by ring end.
+    rewrite Hb; field.
+Qed.
+
+Lemma Rabs_div4 x : Rabs (x / 4) = Rabs x / 4.
+Proof. unfold Rdiv. rewrite Rabs_mult, (Rabs_pos_eq (/ 4)) by lra. reflexivity. Qed.
+Lemma Rabs_div2 x : Rabs (x / 2) = Rabs x / 2.
+Proof. unfold Rdiv. rewrite Rabs_mult, (Rabs_pos_eq (/ 2)) by lra. reflexivity. Qed.
+Lemma Rabs_ndiv2 x : Rabs (- x / 2) = Rabs x / 2.
+Proof. rewrite Rabs_div2, Rabs_Ropp. reflexivity. Qed.
+
+(* the closed form of the KAK path's kappa in the Weyl coordinates *)
+Definition weyl_kappa (a b c : R) : R :=
+  1 + 2 * (Rabs (sin (2 * b) * sin (2 * c)) + Rabs (sin (2 * a) * sin (2 * c)) + Rabs (sin (2 * a) * sin (2 * b)))
+    + 2 * Rabs (sin (2 * a)) * (Rabs (cos (b + c) * cos (b - c)) + Rabs (sin (b + c) * sin (b - c)))
+    + 2 * Rabs (sin (2 * b)) * (Rabs (cos (a + c) * cos (a - c)) + Rabs (sin (a + c) * sin (a - c)))
+    + 2 * Rabs (sin (2 * c)) * (Rabs (cos (a + b) * cos (a - b)) + Rabs (sin (a + b) * sin (a - b))).
+
+Lemma kappa_weyl a b c : kappaR (kak_coeffsR a b c) = weyl_kappa a b c.
+Proof.
+  rewrite kappa_kak_prod, norm_u_prod.
+  destruct (weyl_terms a b c) as [(R01 & R02 & R03 & R12 & R23 & R31) (I01 & I02 & I03 & I12 & I23 & I31)].
+  unfold cross. rewrite R01, R02, R03, R12, R23, R31, I01, I02, I03, I12, I23, I31.
+  rewrite !Rabs_div4, !Rabs_ndiv2, !Rabs_div2.
+  rewrite (Rabs_mult (sin (2 * a)) (_ * _)), (Rabs_mult (sin (2 * b)) (cos _ * _)), (Rabs_mult (sin (2 * c)) (cos _ * _)).
+  rewrite (Rabs_mult (sin (2 * a)) (sin (b + c) * _)), (Rabs_mult (sin (2 * b)) (sin (a + c) * _)),
+          (Rabs_mult (sin (2 * c)) (sin (a + b) * _)).
+  unfold weyl_kappa. lra.
+Qed.
+
+(* corollaries *)
+Lemma kappa_weyl_t00 t : kappaR (kak_coeffsR t 0 0) = 1 + 2 * Rabs (sin (2 * t)).
+Proof.
+  rewrite kappa_weyl. unfold weyl_kappa.
+  replace (2 * 0) with 0 by ring. replace (0 + 0) with 0 by ring. replace (0 - 0) with 0 by ring.
+  rewrite sin_0, cos_0, ?Rmult_0_r, ?Rmult_0_l, ?Rabs_R0, ?Rmult_1_r, ?Rabs_R1. lra.
+Qed.
+
+Lemma kappa_weyl_tt0 t :
+  kappaR (kak_coeffsR t t 0) = 1 + 4 * Rabs (sin (2 * t)) + 2 * (sin (2 * t) * sin (2 * t)).
+Proof.
+  rewrite kappa_weyl. unfold weyl_kappa.
+  replace (2 * 0) with 0 by ring. rewrite !Rplus_0_r, !Rminus_0_r, sin_0.
+  replace (t - t) with 0 by ring. rewrite sin_0, cos_0.
+  rewrite !Rmult_0_r, !Rabs_R0.
+  pose proof (sin2_cos2 t) as H. unfold Rsqr in H.
+  rewrite (Rabs_pos_eq (cos t * cos t)) by nra. rewrite (Rabs_pos_eq (sin t * sin t)) by nra.
+  rewrite (Rabs_pos_eq (sin (2 * t) * sin (2 * t))) by nra.
+  replace (cos t * cos t + sin t * sin t) with 1 by lra. lra.
+Qed.
+
+(* ------------------------------------------------------------------------------------ *)
+(* kappa >= 1                                                                             *)
+(* ------------------------------------------------------------------------------------ *)
+
+Lemma kappa_kak_ge_1 a b c : 1 <= kappaR (kak_coeffsR a b c).
+Proof. rewrite kappa_kak_prod, norm_u_prod. pose proof (cross_nonneg (u_prod a b c)). lra. Qed.
+
+Lemma kappa_nonlocal_ge_1 u : norm2P u = 1 -> 1 <= kappaR (nonlocal_coeffsR u).
+Proof. intros H. rewrite <- H. apply kappa_nonlocal_ge. Qed.
+
+Lemma kappa_registered_ge_1 name theta : In name registry_names -> 1 <= kappaR (coeffsR name theta).
+Proof.
+  unfold registry_names. intros H.
+  assert (S2 : 0 <= sqrt 2) by apply sqrt_pos.
+  pose proof (Rabs_pos (sin theta)). pose proof (Rabs_pos (sin (theta / 2))).
+  repeat (destruct H as [<-|H]); try contradiction.
+  all: first [ rewrite kappa_swap_family by (simpl; tauto); lra
+             | rewrite kappa_rxx_family by (simpl; tauto); lra
+             | rewrite kappa_controlled by (simpl; tauto); lra
+             | rewrite kappa_cs_family by (simpl; tauto); lra
+             | rewrite kappa_cx_family by (simpl; tauto); lra
+             | rewrite kappa_move; lra ].
+Qed.
+
+(* ------------------------------------------------------------------------------------ *)
+(* local invariance                                                                       *)
+(* ------------------------------------------------------------------------------------ *)
+
+Lemma kak_local_invariance {L} (d d' : weyl L) :
+  w_a d = w_a d' -> w_b d = w_b d' -> w_c d = w_c d' -> kak_basis_coeffsR d = kak_basis_coeffsR d'.
+Proof. intros Ha Hb Hc. unfold kak_basis_coeffsR. now rewrite Ha, Hb, Hc. Qed.
+
+Lemma Rabs_sin_2abs x : Rabs (sin (2 * Rabs x)) = Rabs (sin (2 * x)).
+Proof.
+  unfold Rabs at 2. destruct (Rcase_abs x); [|reflexivity].
+  replace (2 * - x) with (- (2 * x)) by ring. apply Rabs_sin_neg.
+Qed.
+
+(* the documented "KAK decomposition angles" reproduce the documented kappa of each family *)
+Lemma kappa_kak_doc_rot theta : kappaR (kak_coeffsR (Rabs (theta / 2)) 0 0) = 1 + 2 * Rabs (sin theta).
+Proof. rewrite kappa_weyl_t00, Rabs_sin_2abs. now replace (2 * (theta / 2)) with theta by field. Qed.
+
+Lemma kappa_kak_doc_ctrl theta : kappaR (kak_coeffsR (Rabs (theta / 4)) 0 0) = 1 + 2 * Rabs (sin (theta / 2)).
+Proof. rewrite kappa_weyl_t00, Rabs_sin_2abs. now replace (2 * (theta / 4)) with (theta / 2) by field. Qed.
+
+Lemma kappa_kak_doc_xxyy theta :
+  kappaR (kak_coeffsR (Rabs (theta / 4)) (Rabs (theta / 4)) 0)
+  = 1 + 4 * Rabs (sin (theta / 2)) + 2 * (sin (theta / 2) * sin (theta / 2)).
+Proof.
+  rewrite kappa_weyl_tt0, Rabs_sin_2abs.
+  replace (sin (2 * Rabs (theta / 4)) * sin (2 * Rabs (theta / 4)))
+    with (Rabs (sin (2 * Rabs (theta / 4))) * Rabs (sin (2 * Rabs (theta / 4))))
+    by (rewrite <- Rabs_mult; apply Rabs_pos_eq; nra).
+  rewrite Rabs_sin_2abs, <- Rabs_mult, (Rabs_pos_eq (_ * _)) by nra.
+  now replace (2 * (theta / 4)) with (theta / 2) by field.
+Qed.
+
+Lemma kappa_kak_doc_cx : kappaR (kak_coeffsR (PI / 4) 0 0) = 3.
+Proof.
+  rewrite kappa_weyl_t00. replace (2 * (PI / 4)) with (PI / 2) by field.
+  rewrite sin_PI2, Rabs_R1. lra.
+Qed.
+
+Lemma kappa_kak_doc_cs : kappaR (kak_coeffsR (PI / 8) 0 0) = 1 + sqrt 2.
+Proof.
+  rewrite kappa_weyl_t00. replace (2 * (PI / 8)) with (PI / 4) by field.
+  rewrite (Rabs_pos_eq _ sin_PI4_pos), two_sin_PI4. reflexivity.
+Qed.
+
+Lemma kappa_kak_doc_iswap : kappaR (kak_coeffsR (PI / 4) (PI / 4) 0) = 7.
+Proof.
+  rewrite kappa_weyl_tt0. replace (2 * (PI / 4)) with (PI / 2) by field.
+  rewrite sin_PI2, Rabs_R1. lra.
+Qed.
+
+Lemma kappa_kak_doc_swap : kappaR (kak_coeffsR (PI / 4) (PI / 4) (PI / 4)) = 7.
+Proof.
+  rewrite kappa_weyl. unfold weyl_kappa.
+  replace (2 * (PI / 4)) with (PI / 2) by field.
+  replace (PI / 4 + PI / 4) with (PI / 2) by field.
+  replace (PI / 4 - PI / 4) with 0 by field.
+  rewrite sin_PI2, cos_PI2, sin_0, cos_0, ?Rmult_0_l, ?Rmult_0_r, ?Rmult_1_l, ?Rabs_R0, ?Rabs_R1. lra.
+Qed.
+
+(* ------------------------------------------------------------------------------------ *)
+(* basis invariants                                                                       *)
+(* ------------------------------------------------------------------------------------ *)
+
+Lemma sumQ_div (l : list Q) (k : Q) : (sumQ (map (fun c => Qabs c / k) l) == kappaQ l / k)%Q.
+Proof.
+  induction l as [|x l IH]; simpl.
+  - unfold Qdiv. ring.
+  - rewrite IH. unfold Qdiv. ring.
+Qed.
+
+Lemma probsQ_sum (l : list Q) : ~ (kappaQ l == 0)%Q -> (sumQ (probsQ l) == 1)%Q.
+Proof. intros H. unfold probsQ. rewrite sumQ_div. now field. Qed.
+
+Lemma probsQ_nonneg (l : list Q) : Forall (fun p => (0 <= p)%Q) (probsQ l).
+Proof.
+  unfold probsQ. apply Forall_forall. intros p Hp. apply in_map_iff in Hp as (c & <- & _).
+  pose proof (kappaQ_nonneg l) as Hk. pose proof (Qabs_nonneg c) as Hc.
+  destruct (Qeq_dec (kappaQ l) 0) as [E|N].
+  - unfold Qdiv. rewrite E. unfold Qinv; simpl. rewrite Qmult_0_r. apply Qle_refl.
+  - apply Qle_shift_div_l.
+    + destruct (Qle_lt_or_eq _ _ Hk) as [L|L]; [exact L|]. exfalso; apply N; now symmetry.
+    + now rewrite Qmult_0_l.
+Qed.
+
+Lemma probsQ_length l : length (probsQ l) = length l.
+Proof. unfold probsQ. apply map_length. Qed.
+
+Lemma sumR_div (l : list R) (k : R) : sumR (map (fun c => Rabs c / k) l) = kappaR l / k.
+Proof. induction l as [|x l IH]; simpl; [unfold Rdiv; ring|]. rewrite IH. unfold Rdiv. ring. Qed.
+
+Lemma probsR_sum (l : list R) : kappaR l <> 0 -> sumR (probsR l) = 1.
+Proof. intros H. unfold probsR. rewrite sumR_div. now field. Qed.
+
+Definition inv (p : bphase) : Prop :=
+  match p with
+  | Unset _ => True
+  | Ready n s => length (st_coeffs s) = n /\ st_kappa s = kappaQ (st_coeffs s) /\ st_probs s = probsQ (st_coeffs s)
+  end.
+
+Lemma set_coeffs_ok p coeffs :
+  length coeffs = nmaps_of p ->
+  set_coeffs p coeffs =
+  Ok (Ready (nmaps_of p) {| st_coeffs := coeffs; st_kappa := kappaQ coeffs; st_probs := probsQ coeffs |}).
+Proof. intros H. unfold set_coeffs. now rewrite H, Nat.eqb_refl. Qed.
+
+Lemma set_coeffs_refused p coeffs : length coeffs <> nmaps_of p -> set_coeffs p coeffs = Refused.
+Proof. intros H. unfold set_coeffs. apply Nat.eqb_neq in H. now rewrite H. Qed.
+
+Lemma assign_nmaps p c : nmaps_of (assign p c) = nmaps_of p.
+Proof. unfold assign, set_coeffs. destruct (Nat.eqb _ _); reflexivity. Qed.
+
+Lemma assign_inv p c : inv p -> inv (assign p c).
+Proof.
+  intros H. unfold assign, set_coeffs. destruct (Nat.eqb (length c) (nmaps_of p)) eqn:E; [|exact H].
+  simpl. apply Nat.eqb_eq in E. auto.
+Qed.
+
+Lemma assign_refused_unchanged p c : length c <> nmaps_of p -> assign p c = p.
+Proof. intros H. unfold assign. now rewrite set_coeffs_refused. Qed.
+
+Lemma run_nmaps p ops : nmaps_of (run_assignments p ops) = nmaps_of p.
+Proof.
+  revert p; induction ops as [|c ops IH]; intros p; simpl; [reflexivity|].
+  unfold run_assignments in *. simpl. rewrite IH. apply assign_nmaps.
+Qed.
+
+Lemma run_inv p ops : inv p -> inv (run_assignments p ops).
+Proof.
+  revert p; induction ops as [|c ops IH]; intros p H; simpl; [exact H|].
+  apply IH. now apply assign_inv.
+Qed.
+
+Lemma run_app p ops c : run_assignments p (ops ++ [c]) = assign (run_assignments p ops) c.
+Proof. unfold run_assignments. now rewrite fold_left_app. Qed.
+
+Lemma run_last p ops c :
+  length c = nmaps_of p ->
+  let p' := run_assignments p (ops ++ [c]) in
+  get_coeffs p' = Some c /\ get_kappa p' = Some (kappaQ c) /\
+  get_probs p' = Some (map (fun x => (Qabs x / kappaQ c)%Q) c) /\
+  get_overhead p' = Some (kappaQ c * kappaQ c)%Q.
+Proof.
+  intros H. cbv zeta. rewrite run_app. unfold assign.
+  rewrite set_coeffs_ok by (now rewrite run_nmaps). simpl. auto.
+Qed.
+
+Lemma run_last_refused p ops c :
+  length c <> nmaps_of p -> run_assignments p (ops ++ [c]) = run_assignments p ops.
+Proof. intros H. rewrite run_app. apply assign_refused_unchanged. now rewrite run_nmaps. Qed.
+
+Lemma new_basis_ok arities coeffs a r :
+  arities = a :: r -> (a <= 2)%nat -> Forall (fun x => x = a) r -> length coeffs = length arities ->
+  new_basis arities coeffs =
+  Ok (Ready (length arities) {| st_coeffs := coeffs; st_kappa := kappaQ coeffs; st_probs := probsQ coeffs |}).
+Proof.
+  intros -> Ha Hr Hl. unfold new_basis.
+  destruct (Nat.ltb_spec 2 a); [lia|].
+  assert (F : forallb (Nat.eqb a) r = true).
+  { apply forallb_forall. intros x Hx. rewrite Forall_forall in Hr. rewrite (Hr x Hx). apply Nat.eqb_refl. }
+  rewrite F. now rewrite set_coeffs_ok.
+Qed.
+
+(* ------------------------------------------------------------------------------------ *)
+(* the documented table is sound for the model                                            *)
+(* ------------------------------------------------------------------------------------ *)
+
+Lemma overhead_sq l : overheadR l = (kappaR l) ^ 2.
+Proof. unfold overheadR. ring. Qed.
+
+Lemma one_sqrt2_sq : (1 + sqrt 2) ^ 2 = 3 + 2 * sqrt 2.
+Proof. pose proof sqrt2_sq. nra. Qed.
+
+Lemma doc_table_sound cls f :
+  In (cls, f) c15_doc_table ->
+  exists g s, doc_formula f = Some g /\ doc_subject cls = Some s /\
+              forall theta, overheadR (subject_coeffsR s theta) = g theta.
+Proof.
+  unfold c15_doc_table. intros H.
+  repeat (destruct H as [H|H]; [inversion H; subst; clear H|]); try contradiction.
+  all: eexists; eexists; split; [reflexivity|]; split; [reflexivity|].
+  all: intros theta; rewrite overhead_sq; cbn [subject_coeffsR].
+  all: first
+    [ rewrite kappa_cs_family by (simpl; tauto); apply one_sqrt2_sq
+    | rewrite kappa_cx_family by (simpl; tauto); reflexivity
+    | rewrite kappa_swap_family by (simpl; tauto); reflexivity
+    | rewrite kappa_rxx_family by (simpl; tauto); reflexivity
+    | rewrite kappa_controlled by (simpl; tauto); reflexivity
+    | rewrite kappa_move; reflexivity
+    | idtac ].
+  - (* RZX *)
+    replace (Q2R (1 # 2) * theta) with (theta / 2) by (unfold Q2R; simpl; field).
+    replace (Q2R (0 # 1) * theta) with 0 by (unfold Q2R; simpl; field). rewrite Rabs_R0.
+    now rewrite kappa_kak_doc_rot.
+  - replace (Q2R (1 # 4) * theta) with (theta / 4) by (unfold Q2R; simpl; field).
+    rewrite kappa_kak_doc_xxyy. ring.
+  - replace (Q2R (1 # 4) * theta) with (theta / 4) by (unfold Q2R; simpl; field).
+    rewrite kappa_kak_doc_xxyy. ring.
+Qed.
+
+Lemma sqrt2_bounds : 1.414 < sqrt 2 < 1.4145.
+Proof.
+  split.
+  - rewrite <- (sqrt_Rsqr 1.414) by lra. apply sqrt_lt_1_alt. unfold Rsqr. lra.
+  - rewrite <- (sqrt_Rsqr 1.4145) by lra. apply sqrt_lt_1_alt. unfold Rsqr. lra.
+Qed.
+
+Lemma doc_approx : 5.828 <= 3 + 2 * sqrt 2 < 5.829.
+Proof. pose proof sqrt2_bounds. lra. Qed.
